@@ -314,14 +314,21 @@ func (w *dbWorld) run(p *simkit.Program) {
 				}
 				got := map[uint64][]byte{}
 				for _, e := range resp.Entries {
+					if _, dup := got[e.Sequence]; dup {
+						w.violate("batch-duplicate-entry", "batch for stream %s lists sequence %d twice", id.stream(), e.Sequence)
+					}
 					got[e.Sequence] = e.VaaBytes
 				}
 				for _, s := range seqs {
 					q := id
 					q.seq = s
 					exp := w.model[q.key()]
-					if !bytes.Equal(got[s], exp) {
-						w.violate("batch-wrong", "batch for stream %s seq %d: got %d bytes want %d", id.stream(), s, len(got[s]), len(exp))
+					b, listed := got[s]
+					switch {
+					case exp == nil && listed:
+						w.violate("batch-reports-absent-sequence", "batch for stream %s lists sequence %d (%d bytes) which is not stored", id.stream(), s, len(b))
+					case exp != nil && !bytes.Equal(b, exp):
+						w.violate("batch-wrong", "batch for stream %s seq %d: got %d bytes want %d", id.stream(), s, len(b), len(exp))
 					}
 					delete(got, s)
 				}
